@@ -108,7 +108,8 @@ class C20(core.Check):
             'a placeholder of the mode that is followed neither by a full stop nor (after optional , ; :) by a '
             'lower-case word or another placeholder. both: plain[offset:offset+length] is what the context marks. '
             'shell: the same through `python -m yalafi.shell --plain-input --output json` incl. trailing || accept '
-            'lists. non-trivial = at least one message expected or produced; distinct = distinct (text, options)'
+            'lists; and LaTeX input in multi-language mode with several separately checked parts (messages in the second '
+            'and later parts must select the letter / equation in the file). non-trivial = at least one message expected or produced; distinct = distinct (text, options)'
             % (len(AL), len(ACC)))
     level_text = ('Exploration: both checks are regular-expression scans; their correctness is a statement over all '
                   'texts, sampled here 10^4 - 10^6 times against regex-free reference rules, including matches within '
@@ -147,6 +148,105 @@ class C20(core.Check):
             yield dict(fam='shell', text=gen_text(rnd, 25) + ' ' + gen_eq_text(rnd, self.ph_of(lang)) + '\n',
                        accept=rnd.choice(ACC) + rnd.choice(['', '||']), lang=lang, mode=rnd.choice(['displayed', 'inline', 'all']),
                        ml=rnd.random() < .3)
+        for i in range(nsh // 2):
+            yield dict(fam='shelltex', s=rnd.getrandbits(48), accept=rnd.choice(['', 'A|I', 'a|x', 'I||', 'e.g.|K']))
+
+    def judge_shelltex(self, case, cnt):
+        """LaTeX input in multi-language mode: several separately checked parts; every message of the own checks
+        must select the offending characters in the LaTeX file, also in the second and later parts"""
+        rnd = random.Random(case['s'])
+        AL2 = ['a', 'b', 'I', 'x', 'word', 'Wort', '1', '.', ',', ' ', ' ', ' ', '\n', 'e.g.', '-', '(', ')', ';', 'ab', 'y',
+               'K', 'text', 'ä', 'z']
+        parts = []
+        pos = [0]
+        regions = []
+        eqs = []        # (start, end, bad)
+
+        def emit(s):
+            parts.append(s)
+            pos[0] += len(s)
+
+        def region(a, b):
+            r = a + ' ' + ''.join(rnd.choice(AL2) for _ in range(rnd.randint(3, 14))) + ' ' + b
+            r = re.sub(r'\n\s*\n', '\n', r)
+            regions.append((pos[0], r))
+            emit(r)
+
+        def equation():
+            bad = rnd.random() < .5
+            emit(' Then\n')
+            st = pos[0]
+            emit('\\[ a=b' + ('' if bad else '.') + ' \\]')
+            eqs.append((st, pos[0], bad))
+            emit('\n' + ('Next' if bad else 'next') + ' we go on.\n')
+        emit('\\usepackage{babel}\n')
+        region('Start', 'end.')
+        for k in range(rnd.randint(1, 3)):
+            kind = rnd.choice(['env', 'env', 'select', 'foreign'])
+            lg = rnd.choice(['german', 'french', 'english', 'ngerman'])     # (placeholder collections as for the main language)
+            if kind == 'env':
+                emit('\n\\begin{otherlanguage}{%s}\n' % lg)
+                region('Anfang', 'und Ende hier.')
+                if rnd.random() < .5:
+                    equation()
+                emit('\n\\end{otherlanguage}\n')
+            elif kind == 'select':
+                emit('\n\n\\selectlanguage{%s}\n\n' % lg)
+            else:
+                emit('\n\\foreignlanguage{%s}{' % lg)
+                region('Anfang', 'und Ende hier.')
+                emit('}\n')
+            region('Again', 'done.')
+            if rnd.random() < .4:
+                equation()
+        emit('\n')
+        src = ''.join(parts)
+        fn = os.path.join(self.tmp, 'in%d.tex' % os.getpid())
+        with open(fn, 'w', encoding='utf-8', newline='') as f:
+            f.write(src)
+        accept = case['accept']
+        cmd = [env.PY, '-m', 'yalafi.shell', '--no-config', '--output', 'json', '--packages', '*',
+               '--lt-command', '%s %s' % (env.PY, self.stub), '--language', 'en-GB', '--multi-language',
+               '--single-letters', accept, '--equation-punctuation', 'displayed', fn]
+        pr = subprocess.run(cmd, capture_output=True, timeout=180, cwd=self.tmp, env=env.child_env())
+        err = pr.stderr.decode('utf-8', 'replace')
+        detail = dict(src=src, cmd=cmd[2:], stderr=err[-800:])
+        if pr.returncode != 0:
+            return dict(ok=False, nt=True, key='shelltex:exit%d' % pr.returncode, cnt=cnt, obs=None, detail=detail)
+        ms = json.loads(pr.stdout.decode('utf-8'))['matches']
+        single = [m for m in ms if m['rule']['id'] == 'PRIVATE::SINGLE_LETTER']
+        eq = [m for m in ms if m['rule']['id'] == 'PRIVATE::EQUATION_PUNCTUATION']
+        want = sorted(st + k for st, r in regions for k in model_single(r, accept.rstrip('|')))
+        # (the letters of an equation placeholder are isolated letters, too, unless the accept list ends with ||:
+        # such messages lie on the equation and are not judged here)
+        in_eq = [m for m in single if any(st <= m['offset'] < en for st, en, b in eqs)]
+        if in_eq and accept.endswith('||'):
+            detail = dict(src=src, cmd=cmd[2:], message=in_eq[0])
+            return dict(ok=False, nt=True, key='shelltex:single:placeholder-flagged', cnt=cnt, obs=None, detail=detail)
+        single = [m for m in single if m not in in_eq]
+        got = sorted(m['offset'] for m in single)
+        detail.update(single_got=got, single_want=want, eq_got=[m['offset'] for m in eq], equations=eqs)
+        if got != want:
+            return dict(ok=False, nt=True, key='shelltex:single:' + ('omitted' if set(want) - set(got) else 'wrong-place'),
+                        cnt=cnt, obs=None, detail=detail)
+        for m in single:
+            cx = m['context']
+            if m['length'] != 1 or cx['text'][cx['offset']:cx['offset'] + cx['length']] != src[m['offset']]:
+                detail['message'] = m
+                return dict(ok=False, nt=True, key='shelltex:single:context', cnt=cnt, obs=None, detail=detail)
+        bad = [(st, en) for st, en, b in eqs if b]
+        for m in eq:
+            if not any(st <= m['offset'] < en for st, en in bad):
+                detail['message'] = m
+                return dict(ok=False, nt=True, key='shelltex:eqpunct:wrong-place', cnt=cnt, obs=None, detail=detail)
+        if len(eq) != len(bad):
+            return dict(ok=False, nt=True, key='shelltex:eqpunct:count', cnt=cnt, obs=None, detail=detail)
+        cnt['shelltex_runs'] = 1
+        cnt['shelltex_messages'] = len(ms)
+        later = [m for m in single if m['offset'] > regions[1][0]] if len(regions) > 1 else []
+        if later:
+            cnt['shelltex_messages_in_later_parts'] = len(later)
+        return dict(ok=True, nt=bool(ms), key=None, cnt=cnt, obs=dict(src=tex.short(src, 200), single=got))
 
     def ph_of(self, lang):
         if not hasattr(self, 'ph'):
@@ -168,6 +268,8 @@ class C20(core.Check):
             return self.judge_single(case, cnt)
         if fam == 'eq':
             return self.judge_eq(case, cnt)
+        if fam == 'shelltex':
+            return self.judge_shelltex(case, cnt)
         return self.judge_shell(case, cnt)
 
     def judge_single(self, case, cnt, msgs=None, text=None):
@@ -301,7 +403,8 @@ class C20(core.Check):
 
     def quotas(self, tier):
         return {'fam_single': 20000, 'fam_eq': 10000, 'single_messages': 20000, 'single_accepted_letters': 3000,
-                'eq_messages': 1500, 'shell_runs': 200, 'shell_accept_placeholders': 40}
+                'eq_messages': 1500, 'shell_runs': 200, 'shell_accept_placeholders': 40, 'shelltex_runs': 100,
+                'shelltex_messages_in_later_parts': 100}
 
 
 CHECK = C20
